@@ -898,8 +898,9 @@ def _exc_reason(e):
     m = str(e)
     if "ambiguous" in m:
         return f"{type(e).__name__}:ambiguous-truth-value(array-valued bounds)"
-    if "incompatible shapes" in m:
-        return f"{type(e).__name__}:incompatible-shapes-for-broadcasting"
+    if "ncompatible shapes" in m or "could not be broadcast" in m:
+        # jax raises TypeError or ValueError, numpy ValueError, depending on how num_values was given
+        return "raises:shapes-not-broadcastable"
     return f"{type(e).__name__}:{_norm(m)}"
 
 
